@@ -10,7 +10,8 @@ use std::net::{SocketAddr, TcpStream};
 use std::path::{Path, PathBuf};
 use std::sync::Mutex;
 use std::time::{Duration, Instant};
-use vx_kit::{json, Check, Level, Local, Value};
+use vx_kit::{json, Check, Level, Value};
+use vx_tools::Attempt;
 use vx_ref::ds::{self, RElem, RItem, RVal, Ts};
 use vx_tools::dimse;
 use vx_tools::dsx;
@@ -19,7 +20,7 @@ use vx_tools::proc::{self, Out, Proc};
 use vx_tools::tree;
 
 const CT: &str = "1.2.840.10008.5.1.4.1.1.2";
-const IO_LIMIT: Duration = Duration::from_secs(8);
+const IO_LIMIT: Duration = Duration::from_secs(20);
 
 // ---- transfer syntaxes -----------------------------------------------------------------------------
 
@@ -525,16 +526,15 @@ impl Ctx<'_> {
     }
 }
 
-fn run_case(l: &mut Local, case: &Case, ctx: &mut Ctx) {
-    let verbose = l.check.verbose;
+fn run_case(l: &mut Attempt, check: &Check, case: &Case, ctx: &mut Ctx) {
+    let verbose = check.verbose;
     let (port, root, baseline) = match ctx.server(case.mode, verbose) {
         Ok(s) => (s.port, s.root.clone(), s.baseline.clone()),
         Err(e) => {
-            l.check.machinery_error(&format!("cannot start dicom-storescp ({}): {e}", MODES[case.mode]));
+            check.machinery_error(&format!("cannot start dicom-storescp ({}): {e}", MODES[case.mode]));
             return;
         }
     };
-    l.eval();
     let abs_target = root.join("canary/abs");
     let real_uid = |w: &str| if w == "\u{1}ABS" { abs_target.to_string_lossy().into_owned() } else { w.to_string() };
     let out = out_dir(&root);
@@ -560,7 +560,7 @@ fn run_case(l: &mut Local, case: &Case, ctx: &mut Ctx) {
     let _guard = if outside.is_empty() { None } else { Some(OUTSIDE_LOCK.lock().unwrap_or_else(|e| e.into_inner())) };
     for p in &outside {
         if p.exists() {
-            l.check.machinery_error(&format!("{} exists before the case ran; refusing to touch it", p.display()));
+            check.machinery_error(&format!("{} exists before the case ran; refusing to touch it", p.display()));
             return;
         }
     }
@@ -570,7 +570,7 @@ fn run_case(l: &mut Local, case: &Case, ctx: &mut Ctx) {
         Ok(c) => c,
         Err(e) => {
             l.outcome("connect-failed");
-            l.fail(&case.id, class("connect-failed", first), json!({ "error": e.to_string() }));
+            l.fail_transient(class("connect-failed", first), json!({ "error": e.to_string() }));
             ctx.servers[case.mode] = None;
             return;
         }
@@ -584,11 +584,11 @@ fn run_case(l: &mut Local, case: &Case, ctx: &mut Ctx) {
         });
     if let Err(e) = established {
         l.outcome("association-not-accepted");
-        l.fail(&case.id, class("association-not-accepted", first), json!({ "answer": e }));
+        l.fail_transient(class("association-not-accepted", first), json!({ "answer": e }));
         ctx.servers[case.mode] = None;
         return;
     }
-    l.nontrivial(&case.id);
+    l.nontrivial = true;
 
     let mut before = baseline.clone();
     let mut all_ok = true;
@@ -602,7 +602,7 @@ fn run_case(l: &mut Local, case: &Case, ctx: &mut Ctx) {
             Ok(w) => w,
             Err(e) => {
                 l.outcome("send-failed");
-                l.fail(&case.id, class("send-failed", st), detail(json!(e.to_string())));
+                l.fail_transient(class("send-failed", st), detail(json!(e.to_string())));
                 all_ok = false;
                 break;
             }
@@ -678,7 +678,11 @@ fn run_case(l: &mut Local, case: &Case, ctx: &mut Ctx) {
         match verdict {
             Some(v) => {
                 l.outcome(&format!("FAIL-{}", v.kind));
-                l.fail(&case.id, class(v.kind, st), detail(v.info));
+                if v.kind == "no-answer-timeout" {
+                    l.fail_transient(class(v.kind, st), detail(v.info));
+                } else {
+                    l.fail(class(v.kind, st), detail(v.info));
+                }
                 all_ok = false;
                 break;
             }
@@ -706,7 +710,7 @@ fn run_case(l: &mut Local, case: &Case, ctx: &mut Ctx) {
         let released = conn.send(&Pdu::ReleaseRq).is_ok() && matches!(conn.recv(), Ok(Some(Pdu::ReleaseRp)));
         if !released {
             l.outcome("FAIL-release");
-            l.fail(&case.id, class("release-not-confirmed", first), json!({ "note": "A-RELEASE-RQ was not answered with A-RELEASE-RP" }));
+            l.fail(class("release-not-confirmed", first), json!({ "note": "A-RELEASE-RQ was not answered with A-RELEASE-RP" }));
             restart = true;
         }
     }
@@ -776,7 +780,8 @@ fn main() {
             if !l.want(&c.id) {
                 continue;
             }
-            run_case(l, c, &mut ctx);
+            let chk = l.check;
+            vx_tools::run_with_retries(l, &c.id, 3, |a| run_case(a, chk, c, &mut ctx));
         }
     });
     let _ = std::fs::remove_dir_all(&scratch);
